@@ -62,6 +62,8 @@ structure Queue (α : Type) where
   expected : Option Nat
   lastOff : Option Nat
   idle : Bool
+  /-- the queue has been initialised for a packet at least once (added by a `fix:` commit) -/
+  used : Bool
 deriving Repr
 
 def U64_MAX : Nat := 2^64 - 1
@@ -69,11 +71,11 @@ def U64_MAX : Nat := 2^64 - 1
 /-- `DefragQueue::new` -/
 def Queue.new (z : α) : Queue α :=
   { streamOff := U64_MAX, nextFrameOff := 0, buf := List.replicate MAX_PACKET_SIZE z, recv := [],
-    window := none, finalSize := none, expected := none, lastOff := none, idle := true }
+    window := none, finalSize := none, expected := none, lastOff := none, idle := true, used := false }
 
 /-- `DefragQueue::init` (note: `last_frame_offset`, `next_frame_offset` and the buffer are *not* reset) -/
 def Queue.init (q : Queue α) (f : Frame α) : Queue α :=
-  { q with recv := [], window := none, finalSize := none, expected := none, idle := false,
+  { q with recv := [], window := none, finalSize := none, expected := none, idle := false, used := true,
            streamOff := f.hdr.streamOff }
 
 /-- `assembly_buffer[off..off+len].copy_from_slice(payload)` -/
@@ -244,7 +246,8 @@ def scanStep (q : Queue α) (i : Nat) (sc : Scan) : Scan :=
 def scanQueues (s : Nat) : List (Queue α) → Nat → Scan → Sum Nat Scan
   | [], _, sc => .inr sc
   | q :: qs, i, sc =>
-    if q.streamOff == s then .inl i else scanQueues s qs (i + 1) (scanStep q i sc)
+    -- (`queue.used &&` added by a `fix:` commit: a never-used queue carries the marker `u64::MAX`, not a packet)
+    if q.used && q.streamOff == s then .inl i else scanQueues s qs (i + 1) (scanStep q i sc)
 
 /-- `select_queue`: index of the queue to use and whether it must be `init`ed; `none` = too old.
     `panic` = the Rust code would index out of bounds (shown unreachable in `Theorems/C17.lean`). -/
